@@ -57,6 +57,9 @@ class _FakeSelector(selectors.BaseSelector):
         lp = self._loop
         if timeout is None:
             raise Stuck(f"nothing scheduled at virtual time {lp._vt:.6f}")
+        il = getattr(lp, "iter_log", None)
+        if il is not None:
+            il.append(round(lp._vt - lp.iter_t0, 7))      # one entry per loop iteration (C19: every stopping point)
         if timeout > 0:
             lp._vt += timeout
             lp._spin = 0
@@ -153,7 +156,7 @@ class SimLoop(asyncio.SelectorEventLoop):
         h = super().call_at(when, callback, *args, context=context)
         if self._dead(context):
             h.cancel()
-        o = OWNER.get()
+        o = context.get(OWNER) if context is not None else OWNER.get()      # a timer belongs to the context it will run in
         self.handles.append((o if o is not None else self.owner, h))
         if len(self.handles) > 4096:
             self.handles = [(o, x) for o, x in self.handles if not x.cancelled() and x.when() >= self._vt]
